@@ -208,7 +208,17 @@ func (r *c18Run) final() http.Handler {
 			case 0:
 				w.WriteHeader([]int{200, 201, 404, 500, 302, 101, 103, 204}[q.args[k]%8])
 			case 1:
-				w.Write(bytes.Repeat([]byte{'b'}, 1+q.args[k]%40))
+				if q.args[k]%9 == 0 {
+					// a zero-length body write: it still commits the implicit 200
+					zsim.Probe("zero_length_write")
+					if q.args[k]%2 == 0 {
+						w.Write(nil)
+					} else {
+						w.Write([]byte{})
+					}
+				} else {
+					w.Write(bytes.Repeat([]byte{'b'}, 1+q.args[k]%40))
+				}
 			case 2:
 				if rf, ok := w.(io.ReaderFrom); ok {
 					rf.ReadFrom(strings.NewReader(strings.Repeat("r", 1+q.args[k]%50)))
@@ -271,6 +281,9 @@ func (r *c18Run) chain(parent zerolog.Logger, picks []int, accessAt, accessAt2, 
 		hlog.RequestIDHandler("req_id", "X-Request-Id"), hlog.CustomHeaderHandler("custom", "X-Custom"),
 		hlog.HostHandler("host"), hlog.HostHandler("host_noport", true), hlog.EtagHandler("etag"),
 		hlog.ResponseHeaderHandler("resp", "X-Resp"),
+		// a field so short that it fits into a few spare bytes, and a header name configured
+		// in a non-canonical spelling
+		hlog.CustomHeaderHandler("k", "X-K"), hlog.CustomHeaderHandler("custom2", "x-custom-low"),
 	}
 	access := hlog.AccessHandler(func(req *http.Request, status, size int, d time.Duration) {
 		q := r.request()
@@ -396,9 +409,11 @@ func (r *c18Run) checkEvent(q *c18Req, picks []int, raw []byte) string {
 		10: {"custom", req.Header.Get("X-Custom")},
 		11: {"host", req.Host},
 		12: {"host_noport", hostOnly(req.Host)},
+		15: {"k", req.Header.Get("X-K")},
+		16: {"custom2", req.Header.Get("X-Custom-Low")},
 	}
 	for _, p := range picks {
-		w, ok := want[p%15]
+		w, ok := want[p%17]
 		if !ok {
 			continue
 		}
@@ -465,7 +480,7 @@ func (c18World) Run(prop string, ch *zsim.Choices, trace bool) *RunResult {
 		np := ch.Intn(8)
 		var picks []int
 		for i := 0; i < np; i++ {
-			picks = append(picks, ch.Intn(15))
+			picks = append(picks, ch.Intn(17))
 		}
 		accessAt, accessAt2, hookAt := -1, -1, -1
 		if ch.Chance(3, 4) {
@@ -518,6 +533,8 @@ func (c18World) Run(prop string, ch *zsim.Choices, trace bool) *RunResult {
 			req.Header.Set("User-Agent", fmt.Sprintf("agent-%d", i))
 			req.Header.Set("Referer", fmt.Sprintf("http://ref%d/", i))
 			req.Header.Set("X-Custom", fmt.Sprintf("custom-%d", i))
+			req.Header.Set("X-K", string(rune('a'+i)))
+			req.Header.Set("X-Custom-Low", fmt.Sprintf("low-%d", i))
 			req.Proto = []string{"HTTP/1.1", "HTTP/2.0", "HTTP/1.0"}[i%3]
 			q := &c18Req{i: i, req: req, rwMode: ch.Weighted(3, 1, 1, 1, 1), rwKind: ch.Intn(3), panics: ch.Weighted(6, 1, 1)}
 			if baseCtx != nil {
